@@ -17,6 +17,8 @@ import (
 // render in the middle, all file sources and file encodings. Every successful output must equal
 // the first one; the model threads the Msg state through the same history.
 
+var writeToFileCalls int
+
 var renderPaths = []string{"WriteTo", "Write", "NewReader", "UpdateReader", "WriteToFile", "WriteToTempFile", "fail", "SkipMiddleware", "Sendmail", "SendmailMissing"}
 
 func renderVia(m *mail.Msg, path string, failAt int, shared **mail.Reader) (out []byte, err error, line string) {
@@ -71,6 +73,11 @@ func renderVia(m *mail.Msg, path string, failAt int, shared **mail.Reader) (out 
 				return
 			}
 			name := f.Name()
+			// every other time the name is that of an existing, longer file (a reused export file)
+			writeToFileCalls++
+			if writeToFileCalls%2 == 0 {
+				_, _ = f.Write(bytes.Repeat([]byte("stale content of an earlier export\r\n"), 8192))
+			}
 			_ = f.Close()
 			defer os.Remove(name)
 			err = m.WriteToFile(name)
